@@ -1,6 +1,7 @@
 import Rooc.Wire
 import Rooc.Oracle
 import Rooc.Pre.Wire
+import Rooc.Pre.IterWire
 namespace Rooc.Drv.C06
 open Rooc Sexp Rooc.Pre
 
@@ -74,6 +75,14 @@ def handleF : List Sexp → Sexp
        | .ok (some r) => app "ok" [encTree r]
        | .error _ => app "err" [.atom "OutOfBounds"])
     | _, _ => app "err" [.atom "decode"]
+  | [.atom "expandme", e] =>
+    match ME.dec e with
+    | some e => (match (expand [] e : Except IErr (Exp Float)) with | .ok x => app "ok" [x.enc] | .error _ => app "err" [])
+    | none => app "err" [.atom "decode"]
+  | [.atom "unrolltext", e] =>
+    match ME.dec e with
+    | some e => (match unroll [] e with | .ok u => app "ok" [.str u.text] | .error _ => app "err" [])
+    | none => app "err" [.atom "decode"]
   | _ => app "err" [.atom "bad-request"]
 
 def handle (α : Type) [Arith α] [Wire α] (args : List Sexp) : Sexp := handleF args
